@@ -34,6 +34,7 @@ import (
 	"sort"
 	"strings"
 	"sync"
+	"sync/atomic"
 	"testing"
 	"testing/synctest"
 	"time"
@@ -146,8 +147,10 @@ func (c *vfHPConn) RemotePeer() peer.ID           { return c.w.remote }
 func (c *vfHPConn) LocalMultiaddr() ma.Multiaddr  { return ma.StringCast("/ip4/100.64.0.1/tcp/4001") }
 func (c *vfHPConn) RemoteMultiaddr() ma.Multiaddr { return c.raddr }
 func (c *vfHPConn) IsClosed() bool                { c.w.mu.Lock(); defer c.w.mu.Unlock(); return c.closed }
-func (c *vfHPConn) Close() error                  { return errors.New("vf: the hole puncher must not close connections") }
-func (c *vfHPConn) String() string                { return "vfconn-" + c.id }
+func (c *vfHPConn) Close() error {
+	return errors.New("vf: the hole puncher must not close connections")
+}
+func (c *vfHPConn) String() string { return "vfconn-" + c.id }
 func (c *vfHPConn) Stat() network.ConnStats {
 	c.w.mu.Lock()
 	defer c.w.mu.Unlock()
@@ -212,19 +215,24 @@ type vfHPStream struct {
 	resetN         int
 }
 
-func (s *vfHPStream) ID() string                                      { return s.id }
-func (s *vfHPStream) Conn() network.Conn                              { return s.c }
-func (s *vfHPStream) Scope() network.StreamScope                      { return s.scope }
-func (s *vfHPStream) Protocol() protocol.ID                           { return Protocol }
-func (s *vfHPStream) SetProtocol(protocol.ID) error                   { return nil }
-func (s *vfHPStream) Stat() network.Stats                             { return network.Stats{Direction: s.c.dir} }
-func (s *vfHPStream) SetDeadline(t time.Time) error                   { s.w.mu.Lock(); s.deadline = t; s.w.mu.Unlock(); return nil }
-func (s *vfHPStream) SetReadDeadline(t time.Time) error               { return s.SetDeadline(t) }
-func (s *vfHPStream) SetWriteDeadline(t time.Time) error              { return nil }
-func (s *vfHPStream) CloseRead() error                                { return nil }
-func (s *vfHPStream) CloseWrite() error                               { return nil }
-func (s *vfHPStream) ResetWithError(_ network.StreamErrorCode) error  { return s.Reset() }
-func (s *vfHPStream) ended() bool                                     { return s.closedN > 0 || s.resetN > 0 }
+func (s *vfHPStream) ID() string                    { return s.id }
+func (s *vfHPStream) Conn() network.Conn            { return s.c }
+func (s *vfHPStream) Scope() network.StreamScope    { return s.scope }
+func (s *vfHPStream) Protocol() protocol.ID         { return Protocol }
+func (s *vfHPStream) SetProtocol(protocol.ID) error { return nil }
+func (s *vfHPStream) Stat() network.Stats           { return network.Stats{Direction: s.c.dir} }
+func (s *vfHPStream) SetDeadline(t time.Time) error {
+	s.w.mu.Lock()
+	s.deadline = t
+	s.w.mu.Unlock()
+	return nil
+}
+func (s *vfHPStream) SetReadDeadline(t time.Time) error              { return s.SetDeadline(t) }
+func (s *vfHPStream) SetWriteDeadline(t time.Time) error             { return nil }
+func (s *vfHPStream) CloseRead() error                               { return nil }
+func (s *vfHPStream) CloseWrite() error                              { return nil }
+func (s *vfHPStream) ResetWithError(_ network.StreamErrorCode) error { return s.Reset() }
+func (s *vfHPStream) ended() bool                                    { return s.closedN > 0 || s.resetN > 0 }
 func (s *vfHPStream) Close() error {
 	s.w.mu.Lock()
 	s.closedN++
@@ -518,9 +526,11 @@ func (h *vfHPHost) NewStream(ctx context.Context, p peer.ID, pids ...protocol.ID
 
 type vfHPIDs struct {
 	identify.IDService // nil
+	n                  *atomic.Int32
 }
 
-func (vfHPIDs) IdentifyWait(network.Conn) <-chan struct{} {
+func (i vfHPIDs) IdentifyWait(network.Conn) <-chan struct{} {
+	i.n.Add(1)
 	ch := make(chan struct{})
 	close(ch)
 	return ch
@@ -615,6 +625,7 @@ type vfHPWorld struct {
 	rstream *vfHPStream // the responder's current stream
 	side    string      // who runs: "I", "R" or ""
 	nsCalls int
+	idWaits atomic.Int32 // IdentifyWait calls: the notifiee asks only for connections it will punch for
 	via     string
 	callRet string // "" while running
 	l1      []vfh.Mismatch
@@ -956,8 +967,54 @@ func (r *vfHPRun) l2(field, what string, exp, got any) {
 		Expected: exp, Got: got, Prefix: append([]any{}, r.w.prefix...)})
 }
 
+// a connection that is not an inbound relayed one must not make the notifiee start a hole punch
+func (r *vfHPRun) notifieeFilter() {
+	w := r.w
+	w.mu.Lock()
+	if len(w.conns) == 0 || r.closed {
+		w.mu.Unlock()
+		return
+	}
+	c := w.conns[r.rnd.Intn(len(w.conns))]
+	c.dir = network.DirOutbound
+	if !c.relay() && r.rnd.Intn(2) == 0 {
+		c.dir = network.DirInbound
+	}
+	notifs := append([]network.Notifiee{}, w.notifs...)
+	w.mu.Unlock()
+	waits := w.idWaits.Load()
+	for _, n := range notifs {
+		n.Connected(w.net, c)
+	}
+	synctest.Wait()
+	hp := r.svc.holePuncher
+	hp.activeMx.Lock()
+	n := len(hp.active)
+	hp.activeMx.Unlock()
+	w.mu.Lock()
+	g := w.gate
+	w.mu.Unlock()
+	r.stats["notifiee-filter"]++
+	if n == 0 && g == nil && w.idWaits.Load() != waits {
+		r.res.AddMismatch(vfh.Mismatch{Class: "L2:holepunch-model-notifiee", Walk: w.walk, Step: w.step,
+			What: fmt.Sprintf("the notifiee went for a hole punch on a connection of kind %s, direction %v (it ended at once)", c.kind, c.dir)})
+	}
+	if n > 0 || g != nil {
+		w.mu.Lock()
+		w.side, w.nsCalls, w.callRet, w.via = "I", 0, "", "notify"
+		w.mu.Unlock()
+		r.l2("notifiee", fmt.Sprintf("the notifiee started a hole punch for a connection of kind %s, direction %v", c.kind, c.dir), "nothing", "DirectConnect running")
+	}
+}
+
 func (r *vfHPRun) startCall(allowNotify bool) {
 	w := r.w
+	if allowNotify && r.rnd.Intn(6) == 0 {
+		r.notifieeFilter()
+		if r.div {
+			return
+		}
+	}
 	w.mu.Lock()
 	w.side, w.nsCalls, w.callRet, w.via = "I", 0, "", "call"
 	var rc *vfHPConn
@@ -1280,7 +1337,7 @@ func vfHPWalk(t *testing.T, res *vfh.Result, wk vfh.Walk, seed int64, stats map[
 		}
 		w.mu.Unlock()
 		tracer := &vfHPTracer{w: w}
-		svc, err := NewService(&vfHPHost{w: w}, vfHPIDs{}, w.listenAddrs, WithMetricsAndEventTracer(tracer, tracer), DirectDialTimeout(vfHPDialTimeout))
+		svc, err := NewService(&vfHPHost{w: w}, vfHPIDs{n: &w.idWaits}, w.listenAddrs, WithMetricsAndEventTracer(tracer, tracer), DirectDialTimeout(vfHPDialTimeout))
 		if err != nil {
 			t.Fatal(err)
 		}
@@ -1381,7 +1438,11 @@ func vfHPWalk(t *testing.T, res *vfh.Result, wk vfh.Walk, seed int64, stats map[
 		}
 		res.Count(1, steps)
 		if wk.Walk%97 == 0 {
-			res.Sample(map[string]any{"walk": wk.Walk, "events": w.tr.Events()})
+			evs := w.tr.Events()
+			if len(evs) > 10 {
+				evs = evs[:10]
+			}
+			res.Sample(map[string]any{"walk": wk.Walk, "steps": steps, "first_events": evs})
 		}
 		trace = w.tr
 	})
@@ -1452,10 +1513,10 @@ func TestVerifC12HolePunchReplay(t *testing.T) {
 // ---------------------------------------------------------------- exported for zz_verif_c12hp_host_test.go
 // (package holepunch_test: the real BasicHost cannot be imported from inside this package)
 
-func VfHPAddr(tok string) ma.Multiaddr    { return vfHPTok[tok] }
-func VfHPToken(a ma.Multiaddr) string     { return vfHPTokenOf(a) }
-func VfHPRelayToken(tok string) bool      { return vfHPIsRelayTok(tok) }
-func VfHPIDs() (string, string, string)   { return vfHPLocalID, vfHPRemoteID, vfHPRelayID }
+func VfHPAddr(tok string) ma.Multiaddr  { return vfHPTok[tok] }
+func VfHPToken(a ma.Multiaddr) string   { return vfHPTokenOf(a) }
+func VfHPRelayToken(tok string) bool    { return vfHPIsRelayTok(tok) }
+func VfHPIDs() (string, string, string) { return vfHPLocalID, vfHPRemoteID, vfHPRelayID }
 
 func vfHPBareWorld(conns, psToks []string) (*vfHPWorld, error) {
 	ps, err := pstoremem.NewPeerstore()
